@@ -42,7 +42,9 @@ def gen_case(ctx, i):
         max_hw = [None, None]
     c = {"i": i, "model": model, "H": H, "W": W, "max_hw": max_hw, "max_stride": int(r.choice([8, 16, 32])), "batch": int(r.integers(1, 6)),
          "refinement": [None, "integral"][int(r.integers(0, 2))], "n_frames": int(r.integers(2, 5)), "seed": int(r.integers(0, 2 ** 31)),
-         "n_nodes": int(r.integers(2, 5)), "two_videos": bool(r.random() < 0.2 and mode != "none")}
+         "n_nodes": int(r.integers(2, 5)), "two_videos": bool(r.random() < 0.3 and mode != "none")}
+    if c["two_videos"] and r.random() < 0.6:
+        c["max_hw"] = "fit-largest"  # size matching to the largest video: one video keeps eff_scale 1, the other is rescaled
     if model == "single":
         c.update(scale=float(r.choice([1.0, 0.5, 0.75])), stride=int(r.choice([1, 2, 4, 8])), n_animals=1, missing_p=float(r.choice([0.0, 0.3])))
     else:
@@ -68,7 +70,11 @@ def build_scene(case, name):
     r = np.random.default_rng(case["seed"])
     vids = [(case["H"], case["W"], case["n_frames"])]
     if case["two_videos"]:
-        vids.append((max(96, case["H"] - 30), min(234, case["W"] + 20), 2))
+        if case["max_hw"] == "fit-largest":
+            vids.append((max(96, int(case["H"] * 0.8)), max(96, int(case["W"] * 0.7)), 2))
+            case["max_hw"] = [case["H"], case["W"]]
+        else:
+            vids.append((max(96, case["H"] - 30), min(234, case["W"] + 20), 2))
     poses = {}
     for v, (H, W, n) in enumerate(vids):
         for f in range(n):
@@ -91,7 +97,11 @@ def build_scene(case, name):
                 reach = max(reach, np.nanmax(np.abs(p - c)) * eff * case["i_scale"])
         need = 2 * (reach + 3 * 1.5 * case["i_stride"] + 4)
         case["crop"] = int(max(case["crop"], -(-need // 16) * 16))
-    return e2e.SceneFiles("C02", name, vids, case["n_nodes"], None, poses), vids
+    sf = e2e.SceneFiles("C02", name, vids, case["n_nodes"], None, poses)
+    if case["two_videos"]:  # frames of the two videos interleaved in random order within the labels file
+        order = [sf.labeled_keys[j] for j in r.permutation(len(sf.labeled_keys))]
+        sf.labels_path = sf.write_labels(order, "labels_shuffled.slp", keep_empty=False)
+    return sf, vids
 
 
 def records(case, outs):
